@@ -529,6 +529,24 @@ func (u *Unit) mergeStates(baseLen int, states []*State) *State {
 			delete(out.vars, k)
 			continue
 		}
+		if srt == "BOX" {
+			// boxed (address-taken) variable with different cells per path:
+			// merge the cell references, keep the variable boxed
+			allBox := true
+			for _, s := range live {
+				if v := s.vars[k]; v.Sort != "BOX" || len(v.Args) != 1 {
+					allBox = false
+				}
+			}
+			if allBox {
+				mi := u.fresh("m_"+k.Name()+"_cell", SInt)
+				for i, s := range live {
+					out.assume = append(out.assume, Imp(guards[i], Eq(mi, s.vars[k].Args[0])))
+				}
+				out.vars[k] = boxTerm(mi)
+				continue
+			}
+		}
 		m := u.fresh("m_"+k.Name(), srt)
 		for i, s := range live {
 			out.assume = append(out.assume, Imp(guards[i], Eq(m, s.vars[k])))
